@@ -1,4 +1,4 @@
-HOOK_COMMITS = ["9d19645"]
+HOOK_COMMITS = ["9d19645", "6f04d2b", "8d9bf84"]
 
 # properties deliberately not claimed, with the reason
 NOT_APPLICABLE = {}
